@@ -7,6 +7,7 @@
 -/
 import TrVerif.Props.C09Complete
 import TrVerif.Props.C04
+import TrVerif.Props.C03
 namespace Tr
 
 def nvDs : Dataset :=
@@ -87,5 +88,23 @@ theorem nv_admissible :
   refine ⟨by decide, ?_⟩
   · refine ⟨by decide, rfl, by rw [h2]; simp, by rw [h2]; simp, rfl, Nat.le_refl _, rfl, rfl, by decide, 1800, ?_, by decide⟩
     exact RReach.egress ⟨1, 200, 150⟩ (by decide)
+
+def nvFwd2 : Params := { forward := true, time := 500, scenario := 0, minWait := 60, maxFirstWait := -1 }
+
+/-- ... and of `C03_optimal`: the remaining data hypotheses and an admissible journey -/
+theorem nv_admissible_forward :
+    ArrBounded nvDs ∧ nvFwd2.maxFirstWait < 0 ∧
+    AdmFwd (mkCtx (nvDs.restrict (nvDs.connSetOf (nvDs.scenarioOf nvFwd2))) nvFwd2 (nvDs.connSetOf (nvDs.scenarioOf nvFwd2))
+        (routerLookup nvDs.access nvFwd2.maxAccess) (routerLookup nvDs.egress nvFwd2.maxEgress) nvFwd2.time (-1))
+      (nvDs.connSetOf (nvDs.scenarioOf nvFwd2)).fwd ⟨0, 1, 1000, 1300, 5, 1, true, true, -1⟩ ⟨0, 1, 1000, 1300, 5, 1, true, true, -1⟩ ⟨1, 200, 150⟩ ∧
+    (match calculateSingle nvDs nvFwd2 with | .ok r => (r.departureTime, r.arrivalTime) | _ => (0, 0)) = (840, 1500) := by
+  have h1 : nvDs.conns = [⟨0, 1, 1000, 1300, 5, 1, true, true, -1⟩] := by decide
+  have h2 : (nvDs.connSetOf (nvDs.scenarioOf nvFwd2)).fwd = [⟨0, 1, 1000, 1300, 5, 1, true, true, -1⟩] := by decide
+  refine ⟨?_, by decide, ?_, by decide⟩
+  · intro c hc g hg; rw [h1] at hc; simp at hc; subst hc
+    have : nvDs.egress = [⟨1, 200, 150⟩] := rfl
+    rw [this] at hg; simp at hg; subst hg; decide
+  · refine ⟨⟨rfl, rfl, 600, ?_, by decide⟩, by rw [h2]; simp, by rw [h2]; simp, rfl, Nat.le_refl _, rfl, by decide, rfl⟩
+    exact Reach.access ⟨0, 100, 80⟩ (by decide)
 
 end Tr
